@@ -30,7 +30,9 @@ func runC23(c *mon.Ctx) {
 		"Payload sources: (i) every file of _fuzz/handle_message/corpus; (ii) generated service messages: rpc_result with result / rpc_error / gzip / pong inside, bad_msg_notification, " +
 		"bad_server_salt, msgs_ack, pong, new_session_created, future_salts, msg_detailed_info, updates, unknown and truncated types, containers / nested containers / gzip of those, " +
 		"multi-step sequences (duplicates, salt retry then result, all requests answered in shuffled order), request ids matching, off by +-4, unrelated, 0, -1, type/high bit flipped; " +
-		"(iii) corpus entries wrapped into results / gzip / containers naming pending ids; (iv) 11 mutation operators over (i)-(iii); (v) nested containers / gzip up to the depth the size limits allow. " +
+		"(iii) corpus entries wrapped into results / gzip / containers naming pending ids; (iv) 11 mutation operators over (i)-(iii); (v) nested containers / gzip up to the depth the size limits allow; " +
+		"(vi) concurrent arm: many rounds per child process of [1..3 gzip-packed rpc_results in sequence, then rpc_results with unique bodies for all remaining pending requests + duplicates + unrelated ids " +
+		"handled at the same time (barrier-released goroutines on the hook path, back-to-back frames through the real read loop)], exact-body oracle. " +
 		"Oracles: child exit status (panic / fatal error attributed to the case); every Output.Decode and every Invoke return must be justified by a payload naming that invocation's id " +
 		"(generated payloads: exact model of first-delivery-wins incl. container abort on error; others: the id bytes must occur in the payload or in what an independent gunzip unpacks from it). " +
 		"distinct non-trivial = (family, node kind / request-id class / outcome class) for generated cases, (source, top-level TL type, handler result, delivered?) for corpus and mutants")
@@ -39,6 +41,21 @@ func runC23(c *mon.Ctx) {
 	c.Assume("payloads whose length is not a positive multiple of 4 cannot arrive in an authenticated message; they are exercised on the fast path only")
 	c.Assume("a settle watchdog (30 s real time) firing is reported as inconclusive, never as a verdict")
 
+	if raceBuild {
+		c.Rule("race-detector build of engine mthandle, concurrent arm only: child processes run many rounds (package-level state needs history); a round = fresh mtproto.Conn, " +
+			"K=2..6 goroutines blocked in Conn.Invoke, phase 1: 1..3 gzip-packed rpc_results (pending or unrelated ids) one after another, phase 2: rpc_results with unique bodies " +
+			"(small / 1..64 KiB / mixed, some gzip-packed) for ALL remaining pending requests plus duplicates and unrelated ids handled concurrently (fast: goroutines released by a " +
+			"barrier into VerifHandleMessage; slow: frames pushed back-to-back through the real read loop, one handler goroutine per frame); Output.Decode reads the body, yields, reads " +
+			"it again. Oracles: race detector (gotd/td frames), every decoded / returned result must be a body sent with that invocation's msg id; distinct = (path, K, gzip-first count, " +
+			"concurrent message count, size mode)")
+		c.Assume("interleavings are sampled by the Go scheduler (GOMAXPROCS=4 in the children), not enumerated")
+		if c.Replay != "" {
+			c.Inconclusive("the concurrent arm has no deterministic replay (scheduler dependent); re-run the check")
+			return
+		}
+		runConc(c, true)
+		return
+	}
 	repo := os.Getenv("VERIF_REPO_DIR")
 	if repo == "" {
 		repo = "/repo"
@@ -220,6 +237,12 @@ func runC23(c *mon.Ctx) {
 		close(ch)
 		wg.Wait()
 	}
+	concDone := make(chan float64, 1)
+	go func() {
+		t := time.Now()
+		runConc(c, false)
+		concDone <- time.Since(t).Seconds()
+	}()
 	deepDone := make(chan float64, 1)
 	go func() {
 		t := time.Now()
@@ -233,6 +256,7 @@ func runC23(c *mon.Ctx) {
 	runAll("slow", slow, 400)
 	c.Set("wall_slow_s", time.Since(t).Seconds())
 	c.Set("wall_deep_s", <-deepDone) // ran concurrently with the batches above
+	c.Set("wall_concurrent_s", <-concDone)
 
 	j.finish()
 }
